@@ -182,13 +182,13 @@ CHECKS['C07'] = dict(
                 'lock/unlock are called under generated configurations: a position the reference refuses must not be served and must leave the slashing-protection record and '
                 'the lock state unchanged.'),
     level_note=('Only the refusal direction is asserted in part B (the statement says "only if"). User-written anchors are generated only as ^(...)$ around the whole pattern; a bare ^a|b$ is '
-                'excluded because the statement does not say how it is to be read. Create-account is exercised by the key-generation checks (C12/C18).'),
+                'excluded because the statement does not say how it is to be read. Create-account goes through the real process service of a one-instance cluster.'),
     parts=[part('TestC07A', 30000, 150000, tshards=8), part('TestC07B', 1200, 6000, qshards=2)],
     rule=('part A: non-trivial iff some query matched at least one but not the only entry of its client (ordering, near misses and negative items matter); part B: non-trivial iff a '
           'slashable request (attest/propose) that would have advanced stored state was refused; distinct = sha256 of the case JSON'),
     essential=['a:queries-model-allows', 'a:queries-model-denies', 'b:refused-positions', 'b:refused-positions-addressed-by-public-key', 'b:allowed-and-served-positions',
                'b:refused-slashable-requests-that-would-have-advanced-state'] + ['b:op-' + o for o in ['sign', 'multisign', 'attest', 'attests', 'propose', 'list', 'lock-account',
-               'unlock-account', 'lock-wallet', 'unlock-wallet']],
+               'unlock-account', 'lock-wallet', 'unlock-wallet', 'create']],
     assumptions=['names and patterns over the alphabet {W,w,a,b,1,2,0,space}: ASCII only, so Unicode case folding plays no part'],
 )
 
